@@ -49,7 +49,7 @@ def STRF_REPL(t):
     # the callees of the specifiers that are not under contract are asserted unreachable (the specifier is fixed in each group)
     return ['dt_dconv', '__ymd_get_yday'] + md + dd + UNR('dt_get_mon', 'dt_get_bday_q', '__bizda_get_yday', 'dt_get_wcnt_year', 'dt_get_wcnt_mon', 'dt_get_quarter', 'dt_get_wday', 'arritostr', 'verif_snprintf')
 # quick tier: every specifier on the representations where it is not a plain field copy (6 GB and 2-5 min per group); all 29 in the thorough tier
-STRF_QUICK = {('J', 'YMD'), ('J', 'YD'), ('J', 'YMCW'), ('J', 'YWD'), ('J', 'DAISY'), ('Y', 'YWD'), ('M', 'YD'), ('D', 'YMCW'), ('D', 'YD'), ('F', 'YD'), ('G', 'YMD'), ('G', 'YWD')}
+STRF_QUICK = {('J', 'YMD'), ('J', 'YD'), ('J', 'YMCW'), ('J', 'YWD'), ('J', 'DAISY'), ('Y', 'YWD'), ('M', 'YD'), ('D', 'YMCW'), ('D', 'YD'), ('F', 'YD'), ('G', 'YD'), ('G', 'YMCW'), ('G', 'YWD')}
 STRF_SPFL = {'G': 'DT_SPFL_N_YEAR', 'Y': 'DT_SPFL_N_YEAR', 'M': 'DT_SPFL_N_MON', 'D': 'DT_SPFL_N_DCNT_MON', 'J': 'DT_SPFL_N_DCNT_YEAR', 'F': 'DT_SPFL_N_DSTD'}
 for c in ('G', 'Y', 'M', 'D', 'J', 'F'):
     for t in ('DT_YMD', 'DT_YD', 'DT_YMCW', 'DT_YWD', 'DT_DAISY'):
